@@ -154,6 +154,34 @@ pub fn body(mask: u32) -> TransactionBody<'static> {
     }
 }
 
+/// `full` with the optional fields not selected by `mask` cleared.
+pub fn body_from(full: &TransactionBody<'static>, mask: u32) -> TransactionBody<'static> {
+    let b = |i: u32| mask & (1 << i) != 0;
+    let mut t = full.clone();
+    macro_rules! clear {
+        ($i:expr, $f:ident) => {
+            if !b($i) {
+                t.$f = None;
+            }
+        };
+    }
+    clear!(0, ttl);
+    clear!(1, certificates);
+    clear!(2, withdrawals);
+    clear!(3, update);
+    clear!(4, auxiliary_data_hash);
+    clear!(5, validity_interval_start);
+    clear!(6, mint);
+    clear!(7, script_data_hash);
+    clear!(8, collateral);
+    clear!(9, required_signers);
+    clear!(10, network_id);
+    clear!(11, collateral_return);
+    clear!(12, total_collateral);
+    clear!(13, reference_inputs);
+    t
+}
+
 pub fn witness_set(mask: u32) -> WitnessSet<'static> {
     let b = |i: u32| mask & (1 << i) != 0;
     WitnessSet {
@@ -176,7 +204,7 @@ pub fn run(r: &mut Runner) {
         "babbage::ProtocolParamUpdate",
         ProtocolParamUpdate,
         eq,
-        al::field_masks(PPU_FIELDS, true).into_iter().map(|m| (format!("mask={m:#x}"), ppu(m))).collect()
+        al::sweep_masks(PPU_FIELDS, r.ctx.thorough).into_iter().map(|m| (format!("mask={m:#x}"), ppu(m))).collect::<Vec<_>>()
     );
     rt!(r, "babbage::Update", Update, eq, lab(updates()));
     rt!(r, "babbage::DatumOption", DatumOption<'_>, raw, lab(datum_options()));
@@ -200,10 +228,14 @@ pub fn run(r: &mut Runner) {
         "babbage::TransactionBody",
         TransactionBody<'_>,
         raw,
-        al::all_masks(14).into_iter().map(|m| (al::mask_label(m, &BODY_NAMES), body(m))).collect()
+        {
+            use rayon::prelude::*;
+            let full = body(0x3fff);
+            al::all_masks(14).into_par_iter().map(move |m| (al::mask_label(m, &BODY_NAMES), body_from(&full, m)))
+        }
     );
     let wnames = ["vkeywitness", "native_script", "bootstrap_witness", "plutus_v1_script", "plutus_data", "redeemer", "plutus_v2_script"];
-    rt!(r, "babbage::WitnessSet", WitnessSet<'_>, raw, al::all_masks(7).into_iter().map(|m| (al::mask_label(m, &wnames), witness_set(m))).collect());
+    rt!(r, "babbage::WitnessSet", WitnessSet<'_>, raw, al::all_masks(7).into_iter().map(|m| (al::mask_label(m, &wnames), witness_set(m))).collect::<Vec<_>>());
     let mut txs: Vec<(String, Tx<'static>)> = vec![];
     for (i, aux) in [Nullable::Null, Nullable::Undefined, Nullable::Some(KeepRaw::from(al::aux_datas()[14].clone()))].into_iter().enumerate() {
         for success in [true, false] {
